@@ -82,6 +82,7 @@ class B:
         self.functions = parent.functions if parent else []
         self.value_info = []
         self.sym_names = set()
+        self.no_value_info = set()
         self.root = parent.root if parent else self
 
     # ---- names / values
@@ -489,9 +490,32 @@ def e_slice_gather(b):
     v = b.pick(lambda v: v.rank >= 1 and v.size > 0)
     if v is None:
         return None
+    dyn = [w for w in b.root.vals if w.name in b.root.sym_names and w.rank >= 1 and w.size > 0]
+    forced = False
+    if dyn and b.parent is None and rng.random() < 0.5:
+        v = rng.choice(dyn)          # a real slice along a dynamic axis of a graph input (or of a slice of it)
+        forced = True
     ax = rng.randrange(v.rank)
+    if forced:
+        ax = max(range(v.rank), key=lambda i: v.shape[i])
     d = v.shape[ax]
     r = rng.random()
+    if forced and d >= 2:
+        # one or two chained real slices (all five inputs, step 1) along a dynamic axis; the values in between carry no
+        # value_info, so their shapes are what node-level shape inference says (unnamed dynamic dimensions)
+        cur = v
+        length = d
+        for _ in range(2 if d >= 3 and rng.random() < 0.7 else 1):
+            if length < 2:
+                break
+            st = rng.randint(0, 1)
+            en = length if st == 1 else length - 1
+            (n,) = b.node("Slice", [cur, b.i64([st]), b.i64([en]), b.i64([ax]), b.i64([1])])
+            length = en - st
+            cur = b.out(n, v.dtype, v.shape[:ax] + (length,) + v.shape[ax + 1:], v.exact, [cur])
+            b.root.no_value_info.add(n)
+        b.features.add("slice-dynamic-axis")
+        return cur
     if r < 0.45:
         if rng.random() < 0.3:
             st, en, sp = 0, rng.choice([d, 2 ** 31, 2 ** 62]), 1      # full-range slice (no-op rule)
@@ -502,7 +526,7 @@ def e_slice_gather(b):
             sp = rng.choice([1, 1, 2, -1])
         idx = range(d)[slice(st, en, sp)]
         args = [v, b.i64([st]), b.i64([en]), b.i64([ax])]
-        if sp != 1 or rng.random() < 0.3:
+        if sp != 1 or rng.random() < 0.6:
             args.append(b.i64([sp]))
         (n,) = b.node("Slice", args)
         return b.out(n, v.dtype, v.shape[:ax] + (len(idx),) + v.shape[ax + 1:], v.exact, [v])
@@ -1024,6 +1048,9 @@ PROFILES = {
 def _vi(name, dtype, shape, sym=True, tag=""):
     if dtype == STR:
         return helper.make_tensor_value_info(name, TensorProto.STRING, list(shape))
+    if sym == "unnamed":
+        # dynamic dimensions without a name (neither dim_value nor dim_param)
+        return helper.make_tensor_value_info(name, NP2ONNX[dtype], [None] * len(shape))
     if sym:
         return helper.make_tensor_value_info(name, NP2ONNX[dtype], [f"{name}_d{i}" for i in range(len(shape))])
     return helper.make_tensor_value_info(name, NP2ONNX[dtype], list(shape))
@@ -1035,7 +1062,7 @@ def gen_dag(rng, idx, profile="mixed", n_nodes=None, overridable=False, value_in
     b = B(rng, opset=opset)
     # graph inputs: static, symbolic or zero-size shapes
     n_in = rng.randint(1, 3)
-    shapes = [(2, 3), (3,), (2, 2), (1, 3), (4,), (), (2, 1, 3), (0, 3), (1,)]
+    shapes = [(2, 3), (3,), (2, 2), (1, 3), (4,), (), (2, 1, 3), (0, 3), (1,), (5, 2), (4, 3)]
     sym_inputs = {}
     for i in range(n_in):
         dt = rng.choice([F32, F32, F32, I64, F64, BOOL])
@@ -1043,6 +1070,9 @@ def gen_dag(rng, idx, profile="mixed", n_nodes=None, overridable=False, value_in
         name = f"x{i}"
         b.add(Val(name, dt, shp, True, False))
         sym = rng.random() < 0.4
+        if sym and shp and rng.random() < 0.4:
+            sym = "unnamed"
+            b.features.add("unnamed-dynamic-dims")
         sym_inputs[name] = sym
         if sym:
             b.sym_names.add(name)
@@ -1109,11 +1139,12 @@ def gen_dag(rng, idx, profile="mixed", n_nodes=None, overridable=False, value_in
         # shapes are symbolic too (as ONNX shape inference would leave them)
         any_sym = any(sym_inputs.values())
         for v in b.vals:
-            if v.seq is None and v.name in produced and (value_info == "all" or rng.random() < 0.5):
+            if v.seq is None and v.name in produced and v.name not in b.no_value_info and (value_info == "all" or rng.random() < 0.5):
                 vis.append(_vi(v.name, v.dtype, v.shape, sym=any_sym and v.dtype != STR))
     have = {v.name for v in vis}
     vis += [v for v in b.value_info if v.name not in have and v.name not in {o.name for o in outs}]
-    g = helper.make_graph(b.nodes, f"g{idx}", b.inputs, [_vi(o.name, o.dtype, o.shape, sym=True) for o in outs], initializer=b.inits, value_info=vis)
+    out_sym = "unnamed" if "unnamed-dynamic-dims" in b.features and rng.random() < 0.7 else True
+    g = helper.make_graph(b.nodes, f"g{idx}", b.inputs, [_vi(o.name, o.dtype, o.shape, sym=out_sym) for o in outs], initializer=b.inits, value_info=vis)
     opsets = [helper.make_opsetid("", opset)]
     if b.functions:
         opsets.append(helper.make_opsetid("local.verif", 1))
@@ -1139,6 +1170,83 @@ def gen_dag(rng, idx, profile="mixed", n_nodes=None, overridable=False, value_in
     c = Case(m, feeds, sorted(b.features), [o.exact for o in outs], "dag:" + profile, f"dag-{profile}-{idx}",
              overridable=[(n, a, k) for n, a, k in over])
     return c
+
+
+def gen_legacy(rng, idx, modern=False, all_kinds=False):
+    """A small opset-11/12 model with the old attribute forms of operators whose reference implementation is split by
+    version (Squeeze / Unsqueeze / ReduceSum with axes attributes, Split with a split attribute, Softmax with the
+    flattening semantics), applied to constants so that the folder evaluates them; interleaved with the opset 18/21 models
+    it makes the result depend on nothing the process did before."""
+    opset = rng.choice([13, 18]) if modern else rng.choice([11, 12])
+    F = TensorProto.FLOAT
+    nodes, inits = [], []
+    k = [0]
+
+    def fresh(h):
+        k[0] += 1
+        return f"{'M' if modern else 'L'}{idx}_{h}{k[0]}"
+
+    def axes_node(op, ins, outs, axes, **kw):
+        """opset <= 12: axes attribute; opset >= 13: axes input (ReduceSum: 13, Squeeze / Unsqueeze: 13, Split: split input 13)"""
+        if modern:
+            ax = fresh("ax")
+            inits.append(numpy_helper.from_array(np.array(axes, dtype=np.int64), ax))
+            return helper.make_node(op, list(ins) + [ax], outs, **kw)
+        return helper.make_node(op, ins, outs, **({"split": axes} if op == "Split" else {"axes": axes}), **kw)
+
+    def const(arr):
+        n = fresh("c")
+        if rng.random() < 0.5:
+            inits.append(numpy_helper.from_array(arr, n))
+        else:
+            nodes.append(helper.make_node("Constant", [], [n], value=numpy_helper.from_array(arr, n)))
+        return n
+    x_shape = (3, 3)
+    cur = "x"
+    feats = {"legacy-opset"}
+    every = ["squeeze", "unsqueeze", "reducesum", "split"]                    # Softmax-11: onnx.reference and onnxruntime disagree
+    for step in range(len(every) if all_kinds else rng.randint(2, 4)):
+        kind = every[step] if all_kinds else rng.choice(every)
+        feats.add("legacy-" + kind)
+        if kind == "squeeze":
+            c = const(nice(rng, F32, (1, 3, 1)))
+            sq = fresh("sq")
+            nodes.append(axes_node("Squeeze", [c], [sq], [0]))          # -> [3,1]
+            out = fresh("m")
+            nodes.append(helper.make_node("Mul", [cur, sq], [out]))
+        elif kind == "unsqueeze":
+            c = const(nice(rng, F32, (3,)))
+            us = fresh("us")
+            nodes.append(axes_node("Unsqueeze", [c], [us], [rng.choice([0, 1])]))
+            out = fresh("a")
+            nodes.append(helper.make_node("Add", [cur, us], [out]))
+        elif kind == "reducesum":
+            c = const(nice(rng, F32, (3, 2)))
+            rs = fresh("rs")
+            nodes.append(axes_node("ReduceSum", [c], [rs], [1], keepdims=rng.randint(0, 1)))
+            out = fresh("a")
+            nodes.append(helper.make_node("Add", [cur, rs], [out]))
+        elif kind == "split":
+            c = const(nice(rng, F32, (3, 3)))
+            s1, s2 = fresh("s"), fresh("s")
+            nodes.append(axes_node("Split", [c], [s1, s2], [1, 2], axis=1))
+            out = fresh("m")
+            nodes.append(helper.make_node("Mul", [cur, s1], [out]))
+        else:
+            c = const(nice(rng, F32, (3, 1, 3)))
+            sm = fresh("sm")
+            nodes.append(helper.make_node("Softmax", [c], [sm], axis=1))             # opset < 13: flattens from axis on
+            rsh = fresh("r")
+            shp = const(np.array([3, 3], dtype=np.int64))
+            nodes.append(helper.make_node("Reshape", [sm, shp], [rsh]))
+            out = fresh("a")
+            nodes.append(helper.make_node("Add", [cur, rsh], [out]))
+        cur = out
+    g = helper.make_graph(nodes, f"legacy{idx}", [helper.make_tensor_value_info("x", F, list(x_shape))],
+                          [helper.make_tensor_value_info(cur, F, list(x_shape))], initializer=inits)
+    m = helper.make_model(g, opset_imports=[helper.make_opsetid("", opset)], ir_version=rng.choice([7, 8]) if modern else rng.choice([6, 7]))
+    feeds = [{"x": np.zeros(x_shape, dtype=np.float32)}, {"x": np.ones(x_shape, dtype=np.float32)}, {"x": nice(rng, F32, x_shape)}]
+    return Case(m, feeds, sorted(feats | ({"modern-twin"} if modern else set())), [True], "dag:legacy", f"dag-{'modern' if modern else 'legacy'}-{idx}")
 
 
 class _Skip(Exception):
